@@ -259,7 +259,9 @@ def run_build(ctx, n):
             # >= 2 files above the 1 MiB threshold route hashing through the unordered thread pool
             ks = list(files)
             for j in range(min(len(ks), rng.choice([2, 3]))):
-                files[ks[j]] = bytes([65 + j]) * (2**20 + 1 + rng.randrange(0, 4096)) + files[ks[j]]
+                # mixed sizes: the first one is much larger, so the pool finishes the files out of submission order
+                n = (6 * 2**20 if j == 0 else 2**20) + 1 + rng.randrange(0, 4096)
+                files[ks[j]] = bytes([65 + j]) * n + files[ks[j]]
         ws = os.path.join(root, "ws")
         gen.materialize(ws, files, rng)
         use_state = rng.random() < 0.6
@@ -267,7 +269,11 @@ def run_build(ctx, n):
         kw = {"state": state} if state else {}
         odb = LocalHashFileDB(fs, os.path.join(root, "odb"), **kw)
         jobs = rng.choice([None, 1, 2, 8])
-        warm = rng.choice(["cold", "warm", "partial"]) if use_state else "nostate"
+        warm = rng.choice(["cold", "warm", "partial", "warm-other-algorithm"]) if use_state else "nostate"
+        if warm == "warm-other-algorithm":
+            # text with CRLF line endings: the two md5 flavours differ exactly there
+            files[("crlf-text.txt",)] = b"first line\r\nsecond line\r\n" + bytes(rng.choice(b"xyz") for _ in range(3))
+            gen.materialize(ws, {("crlf-text.txt",): files[("crlf-text.txt",)]})
         ents = gen.tree_entries(files)
         case = {"build": True, "files": {"/".join(k): (v.hex() if len(v) < 64 else "len:%d" % len(v)) for k, v in files.items()},
                 "jobs": jobs, "state": warm, "large": large}
@@ -275,6 +281,9 @@ def run_build(ctx, n):
         def f():
             if warm in ("warm", "partial"):
                 build(odb, ws, fs, "md5", checksum_jobs=jobs)
+            if warm == "warm-other-algorithm":
+                # the shared hash-state cache already holds the legacy flavour's hashes of the very same files
+                build(odb, ws, fs, "md5-dos2unix", checksum_jobs=jobs)
             if warm == "partial":
                 # touch/add some files so that only part of the cache hits
                 for k in list(files)[::2]:
@@ -347,7 +356,7 @@ def run(ctx):
     ctx.rule = (
         "entry sets (1-7 files, nested, odd names incl. quotes/backslash/newline/non-ASCII/'.dir', empty or missing hashes, "
         "every Meta field combination) x 6 insertion orders x with/without meta; real directories staged with jobs in "
-        "{None,1,2,8}, >=2 files over 1 MiB (thread-pool path), state cold/warm/partially warm, creation order permuted; "
+        "{None,1,2,8}, >=2 files over 1 MiB (thread-pool path), state cold/warm/partially warm/warm with the other md5 flavour's hashes, creation order permuted; "
         "non-trivial = >= 2 entries; distinct = sha256 of the canonical case"
     )
     ctx.assumptions = [
